@@ -308,8 +308,10 @@ func (s *Server) Subscribe(stream pb.GNMI_SubscribeServer) error {
 		if c.sr.GetSubscribe().GetUpdatesOnly() {
 			c.queue.Insert(syncMarker{})
 		}
+		verifPoint("subscribe.registering", c.sr)
 		remove := addSubscription(s.m, c.sr.GetSubscribe(),
 			&matchClient{acl: c.acl, q: c.queue})
+		verifPoint("subscribe.registered", c.sr)
 		defer remove()
 		if !c.sr.GetSubscribe().GetUpdatesOnly() {
 			go s.processSubscription(&c)
@@ -405,6 +407,7 @@ func (s *Server) processSubscription(c *streamClient) {
 		}
 		log.V(2).Infof("end processSubscription for %p", c)
 	}()
+	verifPoint("subscribe.walk.begin", c.sr)
 	if !c.sr.GetSubscribe().GetUpdatesOnly() {
 		for _, subscription := range c.sr.GetSubscribe().Subscription {
 			var fullPath []string
@@ -427,6 +430,7 @@ func (s *Server) processSubscription(c *streamClient) {
 		}
 	}
 
+	verifPoint("subscribe.walk.end", c.sr)
 	_, err = c.queue.Insert(syncMarker{})
 }
 
@@ -502,6 +506,7 @@ func (s *Server) sendStreamingResults(c *streamClient) {
 		}
 	}()
 	for {
+		verifPoint("subscribe.dequeue", c.sr)
 		item, dup, err := c.queue.Next(ctx)
 		if coalesce.IsClosedQueue(err) {
 			c.errC <- nil
